@@ -71,11 +71,16 @@ Theorem C17_vocab_refuted :
 Proof. exact vocab_refuted. Qed.
 Print Assumptions C17_vocab_refuted.
 
-Theorem C17_space_panic_refuted :
-  y_line_ok linux_amd64 (s "+build linux  amd64 windows") <> None
-  /\ y_line_ok linux_amd64 (s "+build windows  linux") = None.
-Proof. exact space_panic_refuted. Qed.
-Print Assumptions C17_space_panic_refuted.
+(** No constraint line can crash the host (was refuted before the repair of buildLineOk/buildTagOk). *)
+Theorem C17_line_never_panics : forall c line, y_line_ok c line <> None.
+Proof. exact line_never_panics. Qed.
+Print Assumptions C17_line_never_panics.
+
+Theorem C17_irregular_spacing_example :
+  y_line_ok linux_amd64 (s "+build windows  linux") = Some true
+  /\ y_line_ok linux_amd64 (s "+build windows,,amd64") = Some false.
+Proof. exact irregular_spacing_example. Qed.
+Print Assumptions C17_irregular_spacing_example.
 
 Theorem C17_name_refuted :
   (y_skip_file linux_amd64 (s "x_amd64_windows.go") true = false
